@@ -15,7 +15,9 @@
    inj    := kind m time            kind odd: add_message_onto(gate 0 of m), even: handle_message_on(m)
    stop%6 : 0 built, frozen, dropped  1 runtime built (+ injections), dropped  2 max_itr(arg)  3 max_time(arg)
             4 run to completion  5 start + dispatch_n_events(arg), dropped without finish
-   order  : odd = the returned profiler (remaining events) is dropped before the Sim
+   order  : odd = the returned profiler (remaining events) is dropped before the Sim; bit 1 (order/2 odd): the runner
+            drops everything BY UNWINDING (a panic while the Sim / runtime / result is alive).  The model does not
+            read that bit: the same handles are released either way (Main.drop_path_irrelevant)
    hold   : odd = the caller keeps its GateRefs / ModuleRefs until everything else is dropped
 
    Output: the record
